@@ -911,12 +911,11 @@ pub fn run_c19(run: &Run) {
                     run_program(&mut b, p);
                     b.nodes.clone()
                 });
+                // a producer that refuses such a node (a store is free to validate what `node` is given) is outside this
+                // family: the question here is only what a mirror does with a node that the producer DID create and announce
                 let reference = match r {
                     Ok(x) => x,
-                    Err(m) => {
-                        run.violation("producer:panic", m, json!({"type": "stream", "program": prog_json(p), "polls": [], "threaded": false}));
-                        return;
-                    }
+                    Err(_) => return,
                 };
                 let n = reference.len() - 2;
                 for np in 0..=1 {
